@@ -20,6 +20,7 @@ import (
 	"fmt"
 	"math/big"
 	"sort"
+	"strconv"
 	"strings"
 )
 
@@ -382,7 +383,12 @@ func (m *model) step(o *op, out *outcome, after *view, psBefore, psAfter propSta
 		if ds := diffAccts(m.accts, after.accts); len(ds) > 0 {
 			ps = append(ps, problem{"govtoken|refused-call-changed-state|" + kind, "refused (" + out.err + ") but: " + diffString(ds)})
 		}
-		return append(ps, m.invariants(after, kind)...)
+		ps = append(ps, m.invariants(after, kind)...)
+		if len(ps) > 1 {
+			ps[0].detail += " || also: " + problemsString(ps[1:])
+			ps = ps[:1]
+		}
+		return ps
 	}
 	exp := m.cloneAccts()
 	var ps []problem
@@ -538,7 +544,6 @@ func (m *model) step(o *op, out *outcome, after *view, psBefore, psAfter propSta
 			if was == now {
 				continue
 			}
-			p := p
 			switch now {
 			case "passed":
 				commit = append(commit, func() { p.status = "passed"; st.count("tally.passed", 1) })
@@ -588,24 +593,30 @@ func (m *model) step(o *op, out *outcome, after *view, psBefore, psAfter propSta
 		unlock(o.By, ltTdpos, big.NewInt(n), "revokevote")
 		commit = append(commit, func() { m.tvotes[cand][o.By] -= n })
 	case "revokenom":
+		// an unlock operation on the initiator: it must release exactly what one of its live
+		// nominations of that candidate locked
 		cand := o.Args["candidate"]
-		var pick *nomRec
-		var d *big.Int
-		if x, g := get(o.By), after.accts[o.By]; x != nil && g != nil {
-			d = new(big.Int).Sub(x.locked[ltTdpos], zero(g.locked[ltTdpos])) // observed release
+		x, g := get(o.By), after.accts[o.By]
+		if x == nil || g == nil {
+			illegal("govtoken|unlock-accepted|unknown-account|revokenom", short(o.By))
+			break
 		}
+		d := new(big.Int).Sub(x.locked[ltTdpos], zero(g.locked[ltTdpos])) // observed release
+		var pick *nomRec
+		var live []string
 		for _, r := range m.noms {
 			if r.active && r.cand == cand && r.by == o.By {
-				if pick == nil || (d != nil && d.IsInt64() && d.Int64() == r.amount) {
+				live = append(live, fmt.Sprint(r.amount))
+				if pick == nil && d.IsInt64() && d.Int64() == r.amount {
 					pick = r
 				}
 			}
 		}
 		if pick == nil {
 			illegal("govtoken|unlock-accepted|no-matching-lock|revokenom",
-				fmt.Sprintf("%s revokes its nomination of %s but holds no (unrevoked) nomination lock for it (height arg %s); observed release %v",
-					short(o.By), short(cand), o.Args["height"], d))
-			if d != nil && d.Sign() > 0 {
+				fmt.Sprintf("%s revokes its nomination of %s (height arg %s) and %s tdpos tokens are released, but its live nomination locks for that candidate are %v",
+					short(o.By), short(cand), o.Args["height"], d, live))
+			if d.Sign() > 0 {
 				unlock(o.By, ltTdpos, d, "revokenom")
 			}
 			break
@@ -648,10 +659,11 @@ func (m *model) step(o *op, out *outcome, after *view, psBefore, psAfter propSta
 	if len(ds) > 0 {
 		ps = append(ps, classify(o, m, exp, after, ds))
 	}
-	if len(ps) == 0 {
-		ps = append(ps, m.invariants(after, kind)...)
-	} else if len(m.invariants(after, kind)) > 0 {
-		ps[0].detail += " || invariants: " + problemsString(m.invariants(after, kind))
+	ps = append(ps, m.invariants(after, kind)...)
+	if len(ps) > 1 {
+		// one call, one root cause: report the most specific problem, keep the rest as detail
+		ps[0].detail += " || also: " + problemsString(ps[1:])
+		ps = ps[:1]
 	}
 	if len(ps) == 0 {
 		m.accts = exp
@@ -714,19 +726,8 @@ func classify(o *op, m *model, exp map[string]*acct, after *view, ds []adiff) pr
 }
 
 func parseInt64(s string) (int64, bool) {
-	var n int64
-	if _, err := fmt.Sscanf(s, "%d", &n); err != nil {
-		return 0, false
-	}
-	if fmt.Sprintf("%d", n) != s && "+"+fmt.Sprintf("%d", n) != s {
-		// strconv.ParseInt semantics: whole string, optional sign, no spaces
-		b, ok := new(big.Int).SetString(s, 10)
-		if !ok || !b.IsInt64() {
-			return 0, false
-		}
-		return b.Int64(), true
-	}
-	return n, true
+	n, err := strconv.ParseInt(s, 10, 64)
+	return n, err == nil
 }
 
 func sortedIDs(m map[string]*prop) []string {
